@@ -1,7 +1,7 @@
 #!/bin/bash
 # tools/import_seed.sh <ID> <k> "<verification summary line>" : copies a verified seeded change into /verif/seeded/<ID>-<k>/
 set -e
-id="$1"; k="$2"; summary="${3:-}"; src="/tmp/seed-$id-out"; dst="/verif/seeded/$id-$k"
+id="$1"; k="$2"; summary="${3:-}"; src="${SEED_SRC:-/tmp/seed-$id-out}"; dst="/verif/seeded/$id-$k"
 mkdir -p "$dst"
 cp "$src/patch$k.diff" "$dst/patch.diff"
 cp "$src/demo${k}_test.go" "$dst/demo_test.go"
